@@ -1,5 +1,5 @@
 (* C07 - Consumer offsets are exact, isolated per consumer and partition, and durable. *)
-From IggyV Require Import Base.Tactics Base.ListX Model.Part Model.PartSpec Proofs.PartBasics.
+From IggyV Require Import Base.Tactics Base.ListX Model.Part Model.PartSpec Proofs.PartBasics Proofs.PartHistory Proofs.OffsetsHistory.
 Open Scope N_scope.
 
 Definition C07_full : Prop := forall c t0 ops, model_check c t0 ops = 0.
@@ -29,8 +29,21 @@ Proof. exact offsets_restart. Qed.
 Theorem C07_purge_removes : forall c now p g i, get_offset (purge c now p) g i = None.
 Proof. exact offsets_purge. Qed.
 
+(* PROVED, history level (every operation list; side conditions as in C01_history_partial): in every reachable state every
+   stored offset - of an individual consumer or of a consumer group, stored explicitly or by auto-commit - is at most the
+   partition's current offset: a consumer never resumes beyond the log, also after restarts, flushes and retention. *)
+Theorem C07_history_partial : forall ops c t0, good_cfg c -> Forall no_expiry_op ops ->
+  Forall (fun q => abase q <= B32) (prun_states (c, part_new c t0) ops) ->
+  let p := snd (pfinal (c, part_new c t0) ops) in
+  forall g k v, get_offset p g k = Some v -> v <= p_cur p.
+Proof.
+  intros ops c t0 Hc Hops Hb. cbn zeta. pose proof (history_O ops c (part_new c t0) Hc (O_new c t0) Hops Hb) as HO.
+  exact (o_bound _ HO).
+Qed.
+
 Print Assumptions C07_store_get.
 Print Assumptions C07_bound.
 Print Assumptions C07_delete.
 Print Assumptions C07_durable.
 Print Assumptions C07_purge_removes.
+Print Assumptions C07_history_partial.
